@@ -77,7 +77,7 @@ def full_c(full):
     return '__'.join(to_camel(p) for p in full.split('.') if p)
 
 
-C_KEYWORDS = set('and and_eq asm auto bitand bitor bool break case catch char class compl const const_cast continue default '
+C_KEYWORDS = set('alignas alignof char16_t char32_t constexpr decltype export noexcept nullptr restrict static_assert thread_local and and_eq asm auto bitand bitor bool break case catch char class compl const const_cast continue default '
                  'delete do double dynamic_cast else enum explicit extern false float for friend goto if inline int long '
                  'mutable namespace new not not_eq operator or or_eq private protected public register reinterpret_cast '
                  'return short signed sizeof static static_cast struct switch template this throw true try typedef typeid '
@@ -266,62 +266,111 @@ def build_plugin(force=False):
     return out, ''
 
 
-def gen_table(sch, services, pkg='t'):
-    """gen_table.inc: generated header, descriptor table, static INIT objects, service fixtures + op_svc"""
+# ---- PFile pipeline (tools/protogen.py) ------------------------------------------------------------------------------
+def lc_name(P, full, fi):
+    return full_lower(P.override(full, fi))
+
+
+def uc_name(P, full, fi):
+    return full_upper(P.override(full, fi))
+
+
+def c_name(P, full, fi):
+    return full_c(P.override(full, fi))
+
+
+def scan_api(header_text, lc):
+    def has(fn):
+        return re.search(r'(?<![A-Za-z0-9_])%s__%s\s*\(' % (re.escape(lc), fn), header_text) is not None
+    pack = [has(x) for x in ('get_packed_size', 'pack', 'pack_to_buffer', 'unpack', 'free_unpacked')]
+    return pack, has('init')
+
+
+def pfile_tables(P, headers):
+    """gen_table.inc / gen_svc.inc for harness/pbc_harness.c -DPBCV_GEN, from a protogen.PFile and the generated headers"""
+    sch = P.sch
     L = ['#include "case.pb-c.h"', 'static const ProtobufCMessageDescriptor *pbcv_gen_msgs[] = {']
-    for m in sch.msgs:
-        L.append('  &%s__descriptor,' % full_lower(pkg + '.' + m.name))
+    for mi in range(len(sch.msgs)):
+        L.append('  &%s__descriptor,' % lc_name(P, P.msg_full(mi), P.infile[mi]))
     L.append('};')
-    for i, m in enumerate(sch.msgs):
-        L.append('static %s pbcv_init_obj%d = %s__INIT;' % (full_c(pkg + '.' + m.name), i, full_upper(pkg + '.' + m.name)))
+    for mi in range(len(sch.msgs)):
+        fi = P.infile[mi]
+        L.append('static %s pbcv_init_obj%d = %s__INIT;' % (c_name(P, P.msg_full(mi), fi), mi, uc_name(P, P.msg_full(mi), fi)))
     L.append('static const void *pbcv_gen_inits[] = {' + ', '.join('&pbcv_init_obj%d' % i for i in range(len(sch.msgs))) + '};')
+    L.append('static const ProtobufCEnumDescriptor *pbcv_gen_enums[] = {')
+    for ei, e in enumerate(P.enums):
+        L.append('  &%s__descriptor,' % lc_name(P, P.enum_full(ei), e.infile))
+    L.append('};')
+    api, refs, partial = [], [], []
+    alltext = '\n'.join(headers.values())
+    for mi in range(len(sch.msgs)):
+        lc = lc_name(P, P.msg_full(mi), P.infile[mi])
+        pack, init = scan_api(alltext, lc)
+        if any(pack) != all(pack):
+            partial.append(lc)
+        api.append('{%d, %d}' % (1 if all(pack) else 0, 1 if init else 0))
+        if init:
+            refs.append('(void *) %s__init' % lc)
+        for ok, fn in zip(pack, ('get_packed_size', 'pack', 'pack_to_buffer', 'unpack', 'free_unpacked')):
+            if ok:
+                refs.append('(void *) %s__%s' % (lc, fn))
+    L.append('static const int pbcv_api[][2] = {' + ', '.join(api) + '};')
+    L.append('static void *pbcv_api_refs[] = {' + ', '.join(refs + ['(void *) 0']) + '};')
     table = '\n'.join(L) + '\n'
+    pkg = P.pkg[0]
     L = ['static int pbcv_called; static const void *pbcv_a_in, *pbcv_a_cl, *pbcv_a_cd, *pbcv_a_svc; static int pbcv_destroyed;']
-    body = ['static void op_svc(void)', '{', '  int dummy_in, dummy_cd; (void) dummy_in; (void) dummy_cd;']
-    for si, (sname, methods) in enumerate(services or []):
-        cname = full_c(pkg + '.' + sname)
-        lc = full_lower(pkg + '.' + sname)
-        uc = full_upper(pkg + '.' + sname)
+    body = ['static void op_svc(int which)', '{', '  int dummy_in, dummy_cd; (void) dummy_in; (void) dummy_cd; (void) pbcv_api_refs; (void) which;']
+    for si, (sname, methods) in enumerate(P.services):
+        full = '.'.join(([pkg] if pkg else []) + [sname])
+        cn, lc, uc = c_name(P, full, 0), lc_name(P, full, 0), uc_name(P, full, 0)
+        mtypes = lambda k: c_name(P, P.msg_full(k), P.infile[k])
         for k, (mn, a, b) in enumerate(methods):
             L.append('static void pbcv_h%d_%s(%s_Service *s, const %s *in, %s_Closure cl, void *cd) { pbcv_called = %d; pbcv_a_svc = s; pbcv_a_in = in; pbcv_a_cl = (const void *) cl; pbcv_a_cd = cd; }'
-                     % (si, camel_to_lower(mn), cname, full_c(pkg + '.' + sch.msgs[a].name), full_c(pkg + '.' + sch.msgs[b].name), k))
-        L.append('static %s_Service pbcv_svc%d = %s__INIT(pbcv_h%d_);' % (cname, si, uc, si))
-        L.append('static void pbcv_destroy%d(%s_Service *s) { (void) s; pbcv_destroyed = %d + 1; }' % (si, cname, si))
-        body.append('  {')
+                     % (si, camel_to_lower(mn), cn, mtypes(a), mtypes(b), k))
+        L.append('static %s_Service pbcv_svc%d = %s__INIT(pbcv_h%d_);' % (cn, si, uc, si))
+        L.append('static void pbcv_destroy%d(%s_Service *s) { (void) s; pbcv_destroyed = %d + 1; }' % (si, cn, si))
+        body.append('  if (which == %d) {' % si)
         body.append('    const ProtobufCServiceDescriptor *d = &%s__descriptor;' % lc)
-        body.append('    unsigned k; %s_Service fresh;' % cname)
-        body.append('    printf("svc=%s magic=%%d name=%%s short=%%s cname=%%s pkg=%%s n=%%u methods=", d->magic == PROTOBUF_C__SERVICE_DESCRIPTOR_MAGIC, d->name, d->short_name, d->c_name, d->package, d->n_methods);' % sname)
-        body.append('    for (k = 0; k < d->n_methods; k++) { int a_ = -1, b_ = -1, q; for (q = 0; q < g_nmsgs; q++) { if (g_msgs[q].dp == d->methods[k].input) a_ = q; if (g_msgs[q].dp == d->methods[k].output) b_ = q; } printf("%s%s:%d:%d", k ? "," : "", d->methods[k].name, a_, b_); }')
-        body.append('    printf(" byname="); for (k = 0; k < d->n_methods; k++) printf("%s%u", k ? "," : "", d->method_indices_by_name[k]);')
+        body.append('    unsigned k; %s_Service fresh;' % cn)
+        body.append('    printf("magic=%d name=%s short=%s cname=%s pkg=%s n=%u methods=", d->magic == PROTOBUF_C__SERVICE_DESCRIPTOR_MAGIC, d->name ? d->name : "(null)", d->short_name ? d->short_name : "(null)", d->c_name ? d->c_name : "(null)", d->package ? d->package : "(null)", d->n_methods);')
+        body.append('    for (k = 0; k < d->n_methods; k++) { int a_ = -1, b_ = -1, q; for (q = 0; q < g_nmsgs; q++) { if (g_msgs[q].dp == d->methods[k].input) a_ = q; if (g_msgs[q].dp == d->methods[k].output) b_ = q; } printf("%s%s:%d:%d", k ? "," : "", d->methods[k].name ? d->methods[k].name : "(null)", a_, b_); }')
+        body.append('    printf(" byname="); if (d->method_indices_by_name) for (k = 0; k < d->n_methods; k++) printf("%s%u", k ? "," : "", d->method_indices_by_name[k]);')
         body.append('    printf(" calls=");')
         for k, (mn, a, b) in enumerate(methods):
-            body.append('    pbcv_called = -1; %s__%s(&pbcv_svc%d.base, (const %s *) &dummy_in, (%s_Closure) op_svc, &dummy_cd);' % (lc, camel_to_lower(mn), si, full_c(pkg + '.' + sch.msgs[a].name), full_c(pkg + '.' + sch.msgs[b].name)))
+            body.append('    pbcv_called = -1; %s__%s(&pbcv_svc%d.base, (const %s *) &dummy_in, (%s_Closure) op_svc, &dummy_cd);' % (lc, camel_to_lower(mn), si, mtypes(a), mtypes(b)))
             body.append('    printf("%%s%%d:%%d", %s, pbcv_called, pbcv_a_svc == (void *) &pbcv_svc%d && pbcv_a_in == (void *) &dummy_in && pbcv_a_cl == (const void *) op_svc && pbcv_a_cd == (void *) &dummy_cd);' % ('","' if k else '""', si))
         body.append('    memset(&fresh, 0x5a, sizeof fresh); %s__init(&fresh, pbcv_destroy%d);' % (lc, si))
         body.append('    { int cleared = 1; void **h = (void **) (&fresh.base + 1); for (k = 0; k < d->n_methods; k++) if (h[k]) cleared = 0;')
         body.append('      pbcv_destroyed = 0; protobuf_c_service_destroy(&fresh.base);')
-        body.append('      printf(" init_desc=%%d init_invoke=%%d cleared=%%d destroyed=%%d", fresh.base.descriptor == d, fresh.base.invoke == protobuf_c_service_invoke_internal, cleared, pbcv_destroyed == %d + 1); }' % si)
-        body.append('    printf(" ; ");')
+        body.append('      printf(" init_desc=%%d init_invoke=%%d cleared=%%d destroyed=%%d\\n", fresh.base.descriptor == d, fresh.base.invoke == protobuf_c_service_invoke_internal, cleared, pbcv_destroyed == %d + 1); }' % si)
+        body.append('    return;')
         body.append('  }')
-    body.append('  printf("\\n");')
+    body.append('  printf("no-such-service\\n");')
     body.append('}')
-    return table, '\n'.join(L + body) + '\n'
+    return table, '\n'.join(L + body) + '\n', partial
 
 
-def probe_source(sch, pkg='t'):
-    """offsetof() / type probe on the member names and C types predicted from the schema (C13)"""
+def pfile_probe(P):
+    """offsetof() / type probe on the member names and C types predicted from the .proto (C13)"""
+    import protogen
+    sch = P.sch
     L = ['#include <stdio.h>', '#include <stddef.h>', '#include "case.pb-c.h"',
          '#define TYPE_IS(expr, T) _Static_assert(__builtin_types_compatible_p(__typeof__(expr), T), "member type")',
          'int main(void) { int bad = 0;']
-    for m in sch.msgs:
-        cn = full_c(pkg + '.' + m.name)
-        lc = full_lower(pkg + '.' + m.name)
+    for mi, m in enumerate(sch.msgs):
+        fi = P.infile[mi]
+        cn = c_name(P, P.msg_full(mi), fi)
+        lc = lc_name(P, P.msg_full(mi), fi)
+        base = P.msg_opts.get(mi, {}).get('base_field_name', 'base')
+        const_str = P.file_opts[fi].get('const_strings', False)
         L.append('  if (%s__descriptor.sizeof_message != sizeof(%s)) { printf("sizeof %s\\n"); bad++; }' % (lc, cn, cn))
+        L.append('  if (offsetof(%s, %s) != 0) { printf("base %s\\n"); bad++; }' % (cn, base, cn))
+        L.append('  TYPE_IS(((%s *) 0)->%s, ProtobufCMessage);' % (cn, base))
         for i, f in enumerate(m.fields):
             mem = field_member_name(f)
             L.append('  if (%s__descriptor.fields[%d].offset != offsetof(%s, %s)) { printf("offset %s.%s\\n"); bad++; }' % (lc, i, cn, mem, cn, mem))
             if f.oneof:
-                q = 'g%d_case' % f.group
+                q = camel_to_lower(P.oneof_names[(mi, f.group)]) + '_case'
             elif f.label == L_REP:
                 q = 'n_' + mem
             elif f.has_q:
@@ -333,39 +382,105 @@ def probe_source(sch, pkg='t'):
             else:
                 L.append('  if (%s__descriptor.fields[%d].quantifier_offset != 0) { printf("qoffset0 %s.%s\\n"); bad++; }' % (lc, i, cn, mem))
             if f.type == T_MESSAGE:
-                ct = full_c(pkg + '.' + sch.msgs[f.sub].name) + ' *'
+                ct = c_name(P, P.msg_full(f.sub), P.infile[f.sub]) + ' *'
             elif f.type == T_ENUM:
-                ct = full_c(pkg + '.E')
+                ei = P.field_enum[(mi, i)]
+                ct = c_name(P, P.enum_full(ei), P.enums[ei].infile)
+            elif f.type == T_STRING:
+                ct = 'const char *' if const_str else 'char *'
             else:
                 ct = C_TYPES[f.type]
             if f.label == L_REP:
                 ct = ct + (' *' if not ct.endswith('*') else '*')
                 L.append('  TYPE_IS(((%s *) 0)->n_%s, size_t);' % (cn, mem))
-            L.append('  TYPE_IS(((%s *) 0)->%s, %s);' % (cn, mem, ct))
+            if f.oneof:
+                L.append('  { %s *p_ = 0; TYPE_IS(p_->%s, %s); (void) p_; }' % (cn, mem, ct))
+            else:
+                L.append('  TYPE_IS(((%s *) 0)->%s, %s);' % (cn, mem, ct))
             if q and q.startswith('has_'):
                 L.append('  TYPE_IS(((%s *) 0)->%s, protobuf_c_boolean);' % (cn, q))
+            if f.type == T_ENUM:
+                ei = P.field_enum[(mi, i)]
+                L.append('  if (%s__descriptor.fields[%d].descriptor != &%s__descriptor) { printf("enumdesc %s.%s\\n"); bad++; }'
+                         % (lc, i, lc_name(P, P.enum_full(ei), P.enums[ei].infile), cn, mem))
+    for ei, e in enumerate(P.enums):
+        up = uc_name(P, P.enum_full(ei), e.infile)
+        for nm, v in e.values:
+            L.append('  if ((int) %s__%s != (%d)) { printf("enum constant %s\\n"); bad++; }' % (up, nm, v, nm))
     L.append('  printf("probe bad=%d\\n", bad); return bad != 0; }')
     return '\n'.join(L) + '\n'
 
 
-def generate(sch, workdir, services=None, file_opts=None, msg_opts=None, plugin=None, sanitize=True, timeout=120):
-    """returns dict(ok, stage, err, harness) -- harness = path of the gen-mode harness binary"""
+def generate_pfile(P, workdir, plugin=None, sanitize=True, timeout=180, cxx=True, probe=True):
+    """.proto -> protoc (twice) -> gen harness (+ C++ header check, + probe).  Returns a dict describing every stage."""
+    import protogen
+    shutil.rmtree(workdir, ignore_errors=True)
     os.makedirs(workdir, exist_ok=True)
     plugin = plugin or os.path.join(BUILD, 'plugin', 'protoc-gen-c')
-    open(os.path.join(workdir, 'case.proto'), 'w').write(proto_text(sch, services, file_opts, msg_opts))
-    r = subprocess.run(['protoc', '--plugin=protoc-gen-c=' + plugin, '--c_out=' + workdir, '-I' + workdir, '-I' + REPO,
-                        os.path.join(workdir, 'case.proto')], stdout=subprocess.PIPE, stderr=subprocess.PIPE, timeout=timeout)
-    if r.returncode != 0:
-        return {'ok': False, 'stage': 'protoc', 'err': r.stderr.decode('utf-8', 'replace')[-1500:], 'rc': r.returncode}
-    table, svc = gen_table(sch, services)
+    res = {'ok': False, 'stages': {}}
+    texts = protogen.proto_texts(P)
+    for name, t in texts.items():
+        open(os.path.join(workdir, name), 'w').write(t)
+    outs = []
+    for rep in (0, 1):
+        od = os.path.join(workdir, 'out%d' % rep)
+        shutil.rmtree(od, ignore_errors=True)
+        os.makedirs(od)
+        r = subprocess.run(['protoc', '--plugin=protoc-gen-c=' + plugin, '--c_out=' + od, '-I' + workdir, '-I' + REPO] +
+                           [os.path.join(workdir, n) for n in texts], stdout=subprocess.PIPE, stderr=subprocess.PIPE, timeout=timeout)
+        if r.returncode != 0:
+            res['stages']['protoc'] = {'rc': r.returncode, 'err': r.stderr.decode('utf-8', 'replace')[-1500:]}
+            res['stage'] = 'protoc'
+            return res
+        outs.append({f: open(os.path.join(od, f), 'rb').read() for f in sorted(os.listdir(od))})
+    res['stages']['protoc'] = {'rc': 0}
+    res['deterministic'] = outs[0] == outs[1]
+    res['files'] = sorted(outs[0])
+    od = os.path.join(workdir, 'out0')
+    headers = {f: outs[0][f].decode('utf-8', 'replace') for f in outs[0] if f.endswith('.h')}
+    table, svc, partial = pfile_tables(P, headers)
+    res['partial_api'] = partial
     open(os.path.join(workdir, 'gen_table.inc'), 'w').write(table)
     open(os.path.join(workdir, 'gen_svc.inc'), 'w').write(svc)
-    cc = ['gcc', '-O1', '-g', '-DPBCV_GEN', '-DPBC_SRC="%s"' % os.path.join(REPO, 'protobuf-c', 'protobuf-c.c'),
-          '-I' + workdir, '-I' + REPO, '-I' + os.path.join(REPO, 'protobuf-c'), '-I' + BUILD,
-          os.path.join(VERIF, 'harness', 'pbc_harness.c'), os.path.join(workdir, 'case.pb-c.c'), '-o', os.path.join(workdir, 'harness_gen')]
+    csrcs = [os.path.join(od, f) for f in outs[0] if f.endswith('.c')]
+    inc = ['-I' + workdir, '-I' + od, '-I' + REPO, '-I' + os.path.join(REPO, 'protobuf-c'), '-I' + BUILD]
+    jobs = {}
+    cc = ['gcc', '-O1', '-g', '-DPBCV_GEN', '-DPBC_SRC="%s"' % os.path.join(REPO, 'protobuf-c', 'protobuf-c.c')] + inc + \
+         [os.path.join(VERIF, 'harness', 'pbc_harness.c')] + csrcs + ['-o', os.path.join(workdir, 'harness_gen')]
     if sanitize:
         cc[1:1] = ['-fsanitize=address,undefined', '-fno-sanitize-recover=all']
-    r = subprocess.run(cc, stdout=subprocess.PIPE, stderr=subprocess.PIPE, timeout=timeout)
-    if r.returncode != 0:
-        return {'ok': False, 'stage': 'cc', 'err': r.stderr.decode('utf-8', 'replace')[-2500:], 'rc': r.returncode}
-    return {'ok': True, 'harness': os.path.join(workdir, 'harness_gen'), 'warnings': r.stderr.decode('utf-8', 'replace')[-800:]}
+    jobs['cc'] = subprocess.Popen(cc, stdout=subprocess.PIPE, stderr=subprocess.PIPE)
+    # the generated sources on their own, as strict C
+    for src in csrcs:
+        jobs['c:' + os.path.basename(src)] = subprocess.Popen(['gcc', '-std=c99', '-Wall', '-Werror=implicit-function-declaration', '-fsyntax-only'] + inc + [src],
+                                                               stdout=subprocess.PIPE, stderr=subprocess.PIPE)
+    if cxx:
+        for h in headers:
+            tu = os.path.join(workdir, 'cxx_%s.cc' % h.replace('.', '_').replace('-', '_'))
+            open(tu, 'w').write('#include "%s"\nint main() { return 0; }\n' % h)
+            jobs['cxx:' + h] = subprocess.Popen(['g++', '-std=c++17', '-fsyntax-only'] + inc + [tu], stdout=subprocess.PIPE, stderr=subprocess.PIPE)
+    if probe:
+        open(os.path.join(workdir, 'probe.c'), 'w').write(pfile_probe(P))
+        jobs['probe'] = subprocess.Popen(['gcc', '-O0'] + inc + [os.path.join(workdir, 'probe.c')] + csrcs +
+                                         [os.path.join(REPO, 'protobuf-c', 'protobuf-c.c'), '-o', os.path.join(workdir, 'probe')],
+                                         stdout=subprocess.PIPE, stderr=subprocess.PIPE)
+    ok = True
+    for k, p in jobs.items():
+        try:
+            o, e = p.communicate(timeout=timeout)
+        except subprocess.TimeoutExpired:
+            p.kill()
+            o, e = b'', b'timeout'
+        res['stages'][k] = {'rc': p.returncode, 'err': e.decode('utf-8', 'replace')[-1800:] if p.returncode else ''}
+        if p.returncode != 0:
+            ok = False
+            res.setdefault('stage', k)
+    if probe and res['stages'].get('probe', {}).get('rc') == 0:
+        r = subprocess.run([os.path.join(workdir, 'probe')], stdout=subprocess.PIPE, stderr=subprocess.PIPE, timeout=60)
+        res['stages']['probe_run'] = {'rc': r.returncode, 'out': r.stdout.decode('utf-8', 'replace')[-800:]}
+        if r.returncode != 0:
+            ok = False
+            res.setdefault('stage', 'probe_run')
+    res['ok'] = ok
+    res['harness'] = os.path.join(workdir, 'harness_gen')
+    return res
